@@ -1,6 +1,7 @@
 PROP = dict(
     modules=["Shangrla.Props.C09", "Shangrla.Props.RiskLimit", "Shangrla.Props.RiskLimitStyle",
-             "Shangrla.Props.RiskLimitPlurality", "Shangrla.Props.RiskLimitComparison", "Shangrla.Props.RiskLimitIID"],
+             "Shangrla.Props.RiskLimitPlurality", "Shangrla.Props.RiskLimitComparison", "Shangrla.Props.RiskLimitIID",
+             "Shangrla.Props.RiskLimitIRV"],
     theorems=["Shangrla.C09.pvalues_are_tests", "Shangrla.C09.pvalues_are_tests_pos", "Shangrla.C09.contest_max",
               "Shangrla.C09.audit_max", "Shangrla.C09.audit_max_nan_iff", "Shangrla.C09.audit_max_largest",
               "Shangrla.C09.proved_sticky", "Shangrla.C09.proved_of_le", "Shangrla.C09.dicts_mirror",
@@ -23,7 +24,18 @@ PROP = dict(
               "Shangrla.RiskLimit.supermajority_null", "Shangrla.RiskLimit.supermajority_polling_risk_limit",
               "Shangrla.RiskLimit.comparison_null", "Shangrla.RiskLimit.comparison_risk_limit",
               "Shangrla.RiskLimit.hitIIDG_map", "Shangrla.RiskLimit.audit_risk_limit_iid",
-              "Shangrla.RiskLimit.audit_risk_limit_iid_run"],
+              "Shangrla.RiskLimit.audit_risk_limit_iid_run",
+              # with C04 (RAIRE sufficiency + social-choice lemma) and C14 (audit-side IRV assorters): a wrong IRV
+              # winner makes some RAIRE assertion false on the true ballots, its assorter averages <= 1/2, risk limit
+              "Shangrla.RiskLimit.irv_wrong_outcome_false_assertion", "Shangrla.RiskLimit.raire_wrong_outcome_false_assertion",
+              "Shangrla.RiskLimit.voteForCand_bridge", "Shangrla.RiskLimit.nebVoteW_bridge", "Shangrla.RiskLimit.nebVoteL_bridge",
+              "Shangrla.RiskLimit.nenVoteW_bridge", "Shangrla.RiskLimit.nenVoteL_bridge", "Shangrla.RiskLimit.tallies_bridge",
+              "Shangrla.RiskLimit.aligned_wf", "Shangrla.RiskLimit.nebAssort_range", "Shangrla.RiskLimit.nenAssort_range",
+              "Shangrla.RiskLimit.irv_assertion_null_neb", "Shangrla.RiskLimit.irv_assertion_null_nen",
+              "Shangrla.RiskLimit.irv_assertion_null", "Shangrla.RiskLimit.irv_polling_risk_limit_neb",
+              "Shangrla.RiskLimit.irv_polling_risk_limit_nen", "Shangrla.RiskLimit.irv_polling_risk_limit",
+              "Shangrla.RiskLimit.irv_wrong_winner_risk_limit", "Shangrla.RiskLimit.raire_wrong_winner_risk_limit",
+              "Shangrla.RiskLimit.example_irv_exact"],
     groups={"status": (1200, 12000), "auditrisk": (60, 600)},
     design_ref="DESIGN.md section 5, C09",
     assumptions=["the statistical test and the data extraction (asn.test.test, Assertion.mvrs_to_data) are parameters of "
